@@ -5,9 +5,9 @@ from concurrent.futures import ThreadPoolExecutor
 from . import build
 
 VERIF = build.VERIF
-EVIDENCE_DIR = os.path.join(VERIF, "evidence")
+EVIDENCE_DIR = os.environ.get("VERIF_EVIDENCE_DIR", os.path.join(VERIF, "evidence"))
 REPLAY_DIR = os.path.join(VERIF, "replays")
-FINDINGS_OUT = os.path.join(VERIF, "findings")       # replay files of new violations (git-ignored)
+FINDINGS_OUT = os.environ.get("VERIF_FINDINGS_DIR", os.path.join(VERIF, "findings"))       # replay files of new violations (git-ignored)
 KNOWN = os.path.join(VERIF, "known_findings.json")
 NCPU = int(os.environ.get("VERIF_JOBS", os.cpu_count() or 8))
 
@@ -93,7 +93,10 @@ def _run_job(job, workdir, idx):
 def run_jobs(jobs, workdir=None, parallel=None):
     """Run jobs in parallel (thread pool, each job = one process)."""
     own = workdir is None
-    workdir = workdir or tempfile.mkdtemp(prefix="verif-run-", dir=os.path.join(VERIF, ".build"))
+    os.makedirs(build.BUILD_ROOT, exist_ok=True)
+    if workdir is None:
+        workdir = tempfile.mkdtemp(prefix="verif-run-", dir=build.BUILD_ROOT)
+        _WORKDIRS.append(workdir)
     # compile all distinct harness executables first (serially per name; fast when cached)
     seen = {}
     for j in jobs:
@@ -109,6 +112,19 @@ def run_jobs(jobs, workdir=None, parallel=None):
         for f in futs:
             f.result()
     return workdir
+
+
+_WORKDIRS = []
+
+
+def _cleanup():
+    for w in _WORKDIRS:
+        shutil.rmtree(w, ignore_errors=True)
+    del _WORKDIRS[:]
+
+
+import atexit
+atexit.register(_cleanup)
 
 
 def read_hashes(path):
@@ -218,7 +234,8 @@ def replay_file(path, times=3, timeout=1800):
     nfail = 0
     tail = ""
     for k in range(times):
-        with tempfile.TemporaryDirectory(prefix="verif-replay-", dir=os.path.join(VERIF, ".build")) as td:
+        os.makedirs(build.BUILD_ROOT, exist_ok=True)
+        with tempfile.TemporaryDirectory(prefix="verif-replay-", dir=build.BUILD_ROOT) as td:
             out = os.path.join(td, "r.json")
             args = ["--%s=%s" % (k2, v) for k2, v in blob.get("args", {}).items() if k2 not in ("cases", "mode")]
             cmd = [exe, "--out=" + out, "--mode=replay", "--replay=" + path] + args
